@@ -91,7 +91,8 @@ func (x *runner) corpus() {
 }
 
 func mline(m member) string {
-	return fmt.Sprintf("m %c %s %s %s", m.Kind, hx.Hex([]byte(m.Name)), hx.Hex([]byte(m.Link)), hx.Hex(m.Data))
+	return fmt.Sprintf("m %c %s %s %s %d %d %d %d %d", m.Kind, hx.Hex([]byte(m.Name)), hx.Hex([]byte(m.Link)), hx.Hex(m.Data),
+		m.HSize, m.Seg, m.Mode, m.MTimeS, m.MTimeN)
 }
 
 // withTimeout runs f; ok is false when it did not finish in time.
@@ -385,6 +386,34 @@ func (x *runner) battery(v view, ms []member, lk map[string]int, ins []tarfs.Ino
 		if rnd.Intn(3) == 0 {
 			q("readdir", "-", h, v.readdir(p))
 		}
+		if rnd.Intn(3) == 0 {
+			q("readfile", "-", h, v.readfile(p))
+		}
+	}
+
+	// Paging through directory handles (directories, links to them, others).
+	pageNs := []int{-2, -1, 0, 1, 1, 2, 3, 5, 100}
+	nPage := 0
+	for _, p := range paths {
+		if nPage >= 8 {
+			break
+		}
+		if _, isKey := lk[p]; !isKey && rnd.Intn(8) != 0 {
+			continue
+		}
+		if i, isKey := lk[p]; isKey {
+			if kk, _ := kindOf(ins[i].Typeflag); kk != 'd' && kk != 's' && rnd.Intn(6) != 0 {
+				continue
+			}
+		}
+		nPage++
+		ns := make([]int, 1+rnd.Intn(5))
+		strs := make([]string, len(ns))
+		for i := range ns {
+			ns[i] = pageNs[rnd.Intn(len(pageNs))]
+			strs[i] = fmt.Sprint(ns[i])
+		}
+		out = append(out, opline{"page - " + hx.Hex([]byte(p)) + " " + strings.Join(strs, ","), v.page(p, ns), true})
 	}
 
 	// Glob.
